@@ -106,7 +106,7 @@ func (i *rangeAggIterator) clearWindow(windowStart time.Time) {
 		n := 0
 		for _, p := range s.Data {
 			t := p.Timestamp.AsTime()
-			if t.Before(windowStart) || t.Equal(windowStart) {
+			if t.Before(windowStart) {
 				continue
 			}
 			s.Data[n] = p
